@@ -73,6 +73,9 @@ def rule_guard(c: Ctx) -> RuleResult:
                and isinstance(n.ast.ops[0], (ast.In, ast.NotIn)) and is_memo(n.ast.comparators[0], n.ast)]
     disp = [cs for cs in c.cg.sites.get(f, []) if cs.kind.startswith("dispatch:inline")]
     if not disp:
+        # the dispatch loop may live in a private helper: the call of that helper stands for it
+        disp = [cs for cs in c.cg.sites.get(f, []) if any(any(x.kind.startswith("dispatch:inline") for x in c.cg.sites.get(g, [])) for g in cs.callees)]
+    if not disp:
         raise AnchorError("skipToken no longer dispatches the inline rules")
     dom = cfg.dominators()
     if not lookups:
@@ -95,52 +98,52 @@ def rule_guard(c: Ctx) -> RuleResult:
               "an exit of skipToken after a memo miss does not store into the memo: that position is re-evaluated by every enclosing scan "
               "(and a capped result may later be recomputed at a shallower level)")
     # ---------------------------------------------------------------- G5 cap branches
+    from .total_rules import cap_edges
     for qual, cursor, endtxt in (("parser_block.py:ParserBlock.tokenize", "line", "endLine"),
                                  ("parser_inline.py:ParserInline.skipToken", "pos", "posMax")):
         # (ParserInline.tokenize needs no such branch: when the cap is hit it falls through to the one-character fallback)
-        f = c.p.func(qual)
-        stn = f.node.args.args[1].arg
-        cfg = c.cfg(f)
-        rd = Reaching(cfg)
-        caps = []
-        for n in cfg.nodes:
-            co = cmp_oriented(n.ast, lambda e: f"{stn}.level" in U(e)) if n.kind == "test" else None
-            if co is not None:
-                rhs = co[2]
-                isopt = option_read_key(rhs) == "maxNesting"
-                if isinstance(rhs, ast.Name):
-                    ds = rd.at(n, rhs.id)
-                    isopt = bool(ds) and all(d.value is not None and any(option_read_key(x) == "maxNesting" for x in ast.walk(d.value)) for d in ds)
-                if isopt:
-                    hit = {ast.GtE: "T", ast.Gt: "T", ast.Lt: "F", ast.LtE: "F"}.get(co[1])
-                    if hit:
-                        caps.append((n, hit))
-        if not caps:
-            r.add(f"{f.short}|cap", c.where(f, f.node), f.short, f"{stn}.level vs maxNesting", "violation", "no comparison of the level with option maxNesting")
-            continue
-        for (n, hit) in caps:
-            starts = [m for (m, l) in n.succ if l == hit]
+        top = c.p.func(qual)
+        cands = [top] + [g for cs in c.cg.sites.get(top, []) if cs.kind in ("direct", "method") for g in cs.callees if g.module is top.module]
+        found_any = False
+        for f in cands:
+            direct = [(n, lab, d) for (n, lab, d) in cap_edges(c, f, depth=2) ]       # depth=2: direct comparisons only
+            if not direct:
+                continue
+            found_any = True
+            params = [a.arg for a in f.node.args.posonlyargs + f.node.args.args]
+            stn = next((a for a in params if c.tf.scope(f).env.get(a) in ("StateBlock", "StateInline")), params[0] if params else "state")
+            cfg = c.cfg(f)
+            # names that denote the end of the range in this function: the parameter itself, or a parameter whose actual is it
+            ends = {endtxt, f"{stn}.{endtxt}"}
+            if f is not top:
+                for pn in params:
+                    acts = [U(a) for (_, a, _) in __import__("sa.interproc", fromlist=["actuals"]).actuals(c, f, pn)]
+                    if acts and all(a in (endtxt, f"{stn}.{endtxt}") or a.endswith("." + endtxt) for a in acts):
+                        ends.add(pn)
+            for (n, lab, d) in direct:
+                hit = "F" if lab == "T" else "T"
+                starts = [m for (m, l) in n.succ if l == hit]
 
-            def cur_store(x: Node) -> bool:
-                if x.kind != "stmt" or not isinstance(x.ast, (ast.Assign, ast.AugAssign)):
+                def cur_store(x: Node, stn=stn, ends=ends) -> bool:
+                    if x.kind != "stmt" or not isinstance(x.ast, (ast.Assign, ast.AugAssign)):
+                        return False
+                    tg = x.ast.targets if isinstance(x.ast, ast.Assign) else [x.ast.target]
+                    for t in tg:
+                        if U(t) == f"{stn}.{cursor}":
+                            v = x.ast.value
+                            while isinstance(v, ast.BinOp) and isinstance(v.op, ast.Add) and isinstance(v.right, ast.Constant):
+                                v = v.left          # end + constant: still past the end of the range
+                            return U(v) in ends
                     return False
-                tg = x.ast.targets if isinstance(x.ast, ast.Assign) else [x.ast.target]
-                for t in tg:
-                    if U(t) == f"{stn}.{cursor}":
-                        if endtxt is None:
-                            return True
-                        v = x.ast.value
-                        while isinstance(v, ast.BinOp) and isinstance(v.op, ast.Add) and isinstance(v.right, ast.Constant):
-                            v = v.left          # end + constant: still past the end of the range
-                        return U(v) in (endtxt, f"{stn}.{endtxt}")
-                return False
-            loop_heads = {h.id for h in cfg.nodes if h.kind in ("join",) and isinstance(h.ast, ast.While)}
-            bad = _must_pass(cfg, starts, cur_store, lambda x: x is cfg.exit or x.id in loop_heads)
-            r.add(f"{f.short}|cap-consumes", c.where(f, n.ast), f.short, U(n.ast), "discharged" if bad is None else "violation",
-                  (f"when the cap is hit the cursor {stn}.{cursor} is moved " + (f"to {endtxt}" if endtxt else "forward") + " before the next iteration / the exit")
-                  if bad is None else
-                  f"when the nesting cap is hit the dispatcher can leave (or loop) without setting {stn}.{cursor}" + (f" to {endtxt}" if endtxt else "") +
-                  ": the enclosing container reports a match that consumed nothing (the same line is dispatched again: non-termination)")
+                loop_heads = {h.id for h in cfg.nodes if h.kind in ("join",) and isinstance(h.ast, ast.While)}
+                bad = _must_pass(cfg, starts, cur_store, lambda x: x is cfg.exit or x.id in loop_heads)
+                r.add(f"{top.short}|cap-consumes", c.where(f, n.ast), f.short, U(n.ast), "discharged" if bad is None else "violation",
+                      f"when the cap is hit the cursor {stn}.{cursor} is moved to the end of the range before the next iteration / the exit"
+                      if bad is None else
+                      f"when the nesting cap is hit the dispatcher can leave (or loop) without setting {stn}.{cursor} to {endtxt}"
+                      ": the enclosing container reports a match that consumed nothing (the same line is dispatched again: non-termination)")
+        if not found_any:
+            r.add(f"{top.short}|cap", c.where(top, top.node), top.short, "level vs maxNesting", "violation", "no comparison of the level with option maxNesting")
     # ---------------------------------------------------------------- G2 backtick cache
     f = c.p.func("rules_inline/backticks.py:backtick")
     st = f.node.args.args[0].arg
